@@ -67,7 +67,9 @@ RandOp(x) ==
     [] die = 3 -> [op |-> "set_opcode", v |-> RandomElement(NamedOpcodes)]
     [] die = 4 -> [op |-> "set_rcode", v |-> RandomElement(IF x.opt = <<>> THEN NamedRcodes4 ELSE NamedRcodes)]
     [] die = 5 -> [op |-> "set_opt", v |-> RandomElement(OptVals)]
-    [] die = 23 -> IF x.rcode = 16 THEN [op |-> "set_rcode", v |-> 0] ELSE [op |-> "clear_opt", v |-> 0]
+    \* (a response code above 15 -- BADVERS, or an unassigned one received with an OPT record -- needs the OPT
+    \* record to travel in: the packet stays inside the wire-representable domain of C02)
+    [] die = 23 -> IF x.rcode \in {16, -1} THEN [op |-> "set_rcode", v |-> 0] ELSE [op |-> "clear_opt", v |-> 0]
     [] die = 24 -> [op |-> "set_id", v |-> RandomElement({0, 1, 255, 256, 4660, 65535})]
     \* into_reply is modelled in Builder.tla but not generated: what it keeps of the header is the crate's
     \* choice, not something C02 states
